@@ -47,6 +47,8 @@ class Contract:
         self.note = kw.pop("note", "")
         self.await_hook = kw.pop("await_hook", None)
         self.max_paths = kw.pop("max_paths", 4000)
+        self.inline = kw.pop("inline", False)  # callers execute the body; on_inline(args, result) records ghosts
+        self.on_inline = kw.pop("on_inline", None)
         if kw:
             raise TypeError(f"unknown contract fields {list(kw)}")
 
@@ -344,7 +346,7 @@ def dispatch_call(key, real, args, kwargs):
     c = sym.cur()
     con = REGISTRY.get(key)
     active = c.data.get("active")
-    if con is not None and key != active:
+    if con is not None and key != active and not con.inline:
         return call_contract(con, real, args, kwargs)
     if key in INLINE_DENY:
         raise Unsupported(f"call to {key}, which has neither a contract nor permission to be inlined")
@@ -355,7 +357,10 @@ def dispatch_call(key, real, args, kwargs):
     c.data.setdefault("inlined", set()).add(key)
     c.data["inline_depth"] = depth + 1
     try:
-        return fn(*args, **kwargs)
+        r = fn(*args, **kwargs)
+        if con is not None and con.inline and con.on_inline is not None and key != active:
+            con.on_inline(bind_args(real, args, kwargs), r)
+        return r
     finally:
         c.data["inline_depth"] = depth
 
